@@ -404,6 +404,59 @@ class StatusRoundTrip:
         return f
 
 
+class KeyOutputListingBounded:
+    """BOUNDED stand-in (native) for the ASSUMED contract of ConfigurationFileToJson in the updateLogs proof: the key-output
+    listing that OutputAgent.updateLogs writes (output.txt, in exactly its format) is converted to output.json with every
+    value as written -- for hostile file names / descriptions (a plain `%`, `%(name)s`, separators, quotes, non-ASCII).
+    Option names come back lower-cased (configparser's default, which readers of output.json rely on)."""
+    name = 'key-output-listing[bounded,native]'
+    POOL = ['plain', 'run%d.csv', '50% of the samples', 'all %(type)s samples', 'a=b', 'k: v', 'semi ; colon', 'hash # tag',
+            '"quoted"', 'tab\tsep', 'ünï', 'back\\slash', '[brackets]', '$HOME/x']
+
+    def run(self, tier='quick', seed=0):
+        import json, os, shutil, tempfile
+        import experiment.model.conf as conf_mod
+        d = tempfile.mkdtemp(prefix='pyvc-c14k-')
+        bad, cases = [], 0
+        try:
+            for v in self.POOL:
+                cases += 1
+                fn = os.path.join(d, 'output.txt')
+                fields = [('filename', v), ('filepath', 'stages/stage1/Collect/' + v), ('description', v), ('type', 'csv'),
+                          ('creationTime', '2026-01-01 10:10:10'), ('version', '3'), ('production', 'True'), ('final', 'no')]
+                with open(fn, 'w') as f:
+                    f.write("[KeyOutput]\n")
+                    for k, x in fields:
+                        f.write("%s=%s\n" % (k, x))
+                    f.write("\n")
+                what = None
+                try:
+                    got = json.loads(conf_mod.ConfigurationFileToJson(fn)).get('KeyOutput', {})
+                    for k, x in fields:
+                        if got.get(k.lower()) != x:
+                            what = "field %s written as %r, output.json holds %r" % (k, x, got.get(k.lower()))
+                            break
+                except Exception as err:
+                    what = "listing with the value %r cannot be converted: %s: %s" % (v, type(err).__name__, err)
+                if what:
+                    bad.append({"what": what, "replay": self._replay(v, what)})
+        finally:
+            shutil.rmtree(d, ignore_errors=True)
+        return {"name": self.name, "bounded": True, "bound": "%d hostile values" % len(self.POOL), "cases": cases,
+                "violations": bad[:3], "summary": "%d listings, %d not converted faithfully" % (cases, len(bad))}
+
+    def _replay(self, v, what):
+        import json, os
+        base = os.environ.get('PYVC_OUT') or os.path.dirname(os.path.dirname(os.path.abspath(__file__)))
+        p = os.path.join(base, 'replays', 'C14')
+        os.makedirs(p, exist_ok=True)
+        fn = os.path.join(p, 'key_output_listing.json')
+        json.dump({"property": "C14", "check": self.name, "value": v, "failed": what,
+                   "how": "write an output.txt section with this value (format of OutputAgent.updateLogs); "
+                          "json.loads(experiment.model.conf.ConfigurationFileToJson(path))"}, open(fn, 'w'), indent=1)
+        return fn
+
+
 TARGETS = [StatusUpdate(), StatusWriteToStream(), UpdateLogs(), StatusDetails(), StoreFlowIR(), GenerateInstanceFiles(), StatusFromFile()]
 LEMMAS = [PrefixClosure()]
-BOUNDED = [StatusRoundTrip()]
+BOUNDED = [StatusRoundTrip(), KeyOutputListingBounded()]
